@@ -141,6 +141,10 @@ Effect(r) ==
     [] r.op = "setflag" ->
          /\ flags' = SetOf(r.ctx)
          /\ UNCHANGED <<flat, n, sm, spar, exists, vis, open, ent, stale>>
+    \* a reload handle over an optional layer was switched to Some(layer) / None: the stack now means r.flat
+    [] r.op = "swap" ->
+         /\ flat' = r.flat
+         /\ UNCHANGED <<flags, n, sm, spar, exists, vis, open, ent, stale>>
     [] OTHER -> UNCHANGED <<flat, flags, n, sm, spar, exists, vis, open, ent, stale>>
 
 \* constraints on the one thing A takes from the observation: whether a span was created at all
